@@ -93,6 +93,9 @@ pub enum Reply {
     MalformedSignature(u8),
     /// Registration receipt that does not extend the subscription (same expiry / same slots).
     NotExtending(u8),
+    /// Registration reply made out to somebody else: another user's id echoed back, with a receipt (bigger than what the
+    /// client knows) that the tower validly signed for that other user.
+    OtherUserReceipt,
 }
 
 #[derive(Serialize, Deserialize, Clone, Debug, PartialEq, Eq, Hash)]
@@ -275,13 +278,18 @@ impl Net {
         };
         let mut reply = {
             let t = &mut st.towers[ti];
-            t.script.pop_front().unwrap_or_else(|| t.default.clone())
+            // (a registration reply made out to somebody else waits for the next registration request)
+            if endpoint != "register" && t.script.front() == Some(&Reply::OtherUserReceipt) {
+                t.default.clone()
+            } else {
+                t.script.pop_front().unwrap_or_else(|| t.default.clone())
+            }
         };
         if endpoint == "register" && matches!(reply, Reply::NotExtending(_)) && st.towers[ti].registrations == 0 {
             // there is nothing to extend yet: this is just a first registration
             reply = Reply::Accept;
         }
-        if endpoint != "register" && matches!(reply, Reply::NotExtending(_)) {
+        if endpoint != "register" && matches!(reply, Reply::NotExtending(_) | Reply::OtherUserReceipt) {
             reply = Reply::Accept;
         }
         let mut lapsed_answer = false;
@@ -361,6 +369,13 @@ impl Net {
                                         }
                                     }
                                 };
+                                // (made out to somebody else: that user's id is echoed and the signature is good for it)
+                                let uid = if *r == Reply::OtherUserReceipt {
+                                    UserId(PublicKey::from_secret_key(&Secp256k1::new(), &t.other_sk))
+                                } else {
+                                    uid
+                                };
+                                let echoed = if *r == Reply::OtherUserReceipt { uid.to_vec() } else { req.user_id.clone() };
                                 let mut receipt = RegistrationReceipt::new(uid, slots, start, expiry);
                                 let key = if *r == Reply::OtherKeySignature { t.other_sk } else { t.sk };
                                 receipt.sign(&key);
@@ -376,7 +391,7 @@ impl Net {
                                     t.registrations += 1;
                                 }
                                 let resp = common_msgs::RegisterResponse {
-                                    user_id: req.user_id.clone(),
+                                    user_id: echoed,
                                     available_slots: slots,
                                     subscription_start: start,
                                     subscription_expiry: expiry,
@@ -1568,7 +1583,8 @@ impl<'a> Session<'a> {
                 if served == Some(Reply::Refuse) {
                     self.towers[*t as usize].user_cmd_failed = true;
                 }
-                if ok {
+                if ok && (self.towers[*t as usize].abandoned || !self.towers[*t as usize].registered) {
+                    // a tower registered anew starts as reachable; a renewal leaves the status (flipped or not) as it is
                     self.towers[*t as usize].user_cmd_failed = false;
                 }
                 match (&r, &served) {
